@@ -4,7 +4,8 @@
    compress.NewCompressReader with its switch labels regenerated into Gen/CompressLabels.v).
    The codecs are universally quantified functions with the single hypothesis
    `dec e (compress e p) = (p, EOF)`. *)
-From ReqV Require Import Lib.Bytes Gen.CompressLabels Model.Decode Proofs.DecodeProofs.
+From ReqV Require Import Lib.Bytes Gen.CompressLabels Model.Decode Model.DecodeSession
+  Proofs.DecodeProofs Proofs.DecodeSessionProofs.
 
 (* the transport asks for gzip exactly when compression is not disabled, the caller set neither
    Accept-Encoding nor Range, and the method is not HEAD - on all three stacks *)
@@ -35,7 +36,7 @@ Theorem C14_decoded_is_original :
   (forall e p, dec e (compress e p) = {| s_data := p; s_end := EOF |}) ->
   forall st c auto r e p sizes,
   r_cl r <> 0%Z ->
-  wants_decode c auto (header_get (r_ce r)) = Some e ->
+  wants_decode c auto (content_encoding (r_ce r)) = Some e ->
   r_body r = Raw (compress e p) ->
   Forall (fun n => 0 < n) sizes -> length p < length sizes ->
   let r' := respond st c auto false r in
@@ -53,9 +54,9 @@ Theorem C14_otherwise_untouched : forall st c auto ended r,
   \/ (auto = false /\ q_range c <> [])
   \/ (auto = false /\ q_disable c = true)
   \/ r_ce r = []
-  \/ (new_compress_reader (header_get (r_ce r)) = None /\
-      equal_fold (header_get (r_ce r)) tok_gzip = false)
-  \/ (auto = false /\ equal_fold (header_get (r_ce r)) tok_gzip = false)
+  \/ (new_compress_reader (content_encoding (r_ce r)) = None /\
+      equal_fold (content_encoding (r_ce r)) tok_gzip = false)
+  \/ (auto = false /\ equal_fold (content_encoding (r_ce r)) tok_gzip = false)
   ->
   respond st c auto ended r = r.
 Proof. exact otherwise_untouched. Qed.
@@ -64,12 +65,12 @@ Print Assumptions C14_otherwise_untouched.
 (* the two theorems above are exhaustive: the response is rewritten iff wants_decode says so *)
 Theorem C14_decode_iff_wanted : forall st c auto r,
   r_cl r <> 0%Z ->
-  respond st c auto false r = delivered r (wants_decode c auto (header_get (r_ce r))).
+  respond st c auto false r = delivered r (wants_decode c auto (content_encoding (r_ce r))).
 Proof. exact respond_spec. Qed.
 Print Assumptions C14_decode_iff_wanted.
 
 Theorem C14_nothing_wanted_nothing_touched : forall st c auto ended r,
-  wants_decode c auto (header_get (r_ce r)) = None -> respond st c auto ended r = r.
+  wants_decode c auto (content_encoding (r_ce r)) = None -> respond st c auto ended r = r.
 Proof. exact respond_none. Qed.
 Print Assumptions C14_nothing_wanted_nothing_touched.
 
@@ -97,7 +98,7 @@ Print Assumptions C14_read_size_independent.
 (* a decoder error reaches the caller (it ends the reads of every schedule) ... *)
 Theorem C14_decode_error_surfaces : forall (dec : codec) st c auto r e sizes,
   r_cl r <> 0%Z ->
-  wants_decode c auto (header_get (r_ce r)) = Some e ->
+  wants_decode c auto (content_encoding (r_ce r)) = Some e ->
   Forall (fun n => 0 < n) sizes ->
   length (s_data (dec e (wire_of (r_body r)))) < length sizes ->
   fst (drain dec sizes (open_body (r_body (respond st c auto false r)))) =
@@ -118,6 +119,82 @@ Theorem C14_sticky_after_drain : forall dec sizes r b e r',
 Proof. exact drain_sticky. Qed.
 Print Assumptions C14_sticky_after_drain.
 
+(* several Content-Encoding header lines are one list (RFC 9110 5.3; compress.ContentEncoding joins
+   them, fix c31eb6d): such a response is returned as received, whatever the lines say *)
+Theorem C14_multi_line_is_a_list : forall st c auto ended r,
+  2 <= length (r_ce r) -> respond st c auto ended r = r.
+Proof. exact multi_line_untouched. Qed.
+Print Assumptions C14_multi_line_is_a_list.
+
+(* before that fix the decision looked at the first line and the rewrite deleted all lines: a body
+   encoded twice was delivered once-decoded under headers naming no coding *)
+Theorem C14_first_line_refuted : forall (compress : enc -> bytes -> bytes) (p : bytes),
+  let c := {| q_disable := false; q_ae := []; q_range := []; q_head := false |} in
+  let r := {| r_ce := [bs "gzip"; bs "gzip"]; r_clh := []; r_other := []; r_cl := (-1)%Z; r_unc := false;
+              r_body := Raw (compress Gzip (compress Gzip p)) |} in
+  forall st,
+  (r_ce (respond_first_line st c false false r) = [] /\
+   r_body (respond_first_line st c false false r) = Lazy Gzip (compress Gzip (compress Gzip p))) /\
+  respond st c false false r = r.
+Proof. exact first_line_refuted. Qed.
+Print Assumptions C14_first_line_refuted.
+
+(* ---------- several responses alive at the same time (Model/DecodeSession.v) ---------- *)
+
+(* the reader state is per response: in ANY interleaving of ReadFull and Close operations over ANY
+   set of response bodies (heap of decompressor objects, every first Read allocates a new one), what
+   response i's caller sees - bytes and status of each of its operations - is what it would see with
+   that response alone: a function of body i and of the operations addressed to i *)
+Theorem C14_session_independence : forall dec bodies ops i b,
+  nth_error bodies i = Some b ->
+  results_of i ops (fst (sess_run dec ops (sess_open bodies))) =
+  fst (crd_run dec (project i ops) (COpen (open_body b))).
+Proof. exact session_independence. Qed.
+Print Assumptions C14_session_independence.
+
+(* hence two sessions that agree on response i's body and on the operations addressed to it agree on
+   everything response i delivers, whatever the other responses are and whatever is done to them
+   (closed twice, read concurrently, corrupt, ...) *)
+Theorem C14_reader_depends_on_own_input_only : forall dec bodies1 bodies2 ops1 ops2 i b,
+  nth_error bodies1 i = Some b -> nth_error bodies2 i = Some b ->
+  project i ops1 = project i ops2 ->
+  results_of i ops1 (fst (sess_run dec ops1 (sess_open bodies1))) =
+  results_of i ops2 (fst (sess_run dec ops2 (sess_open bodies2))).
+Proof. exact session_own_input_only. Qed.
+Print Assumptions C14_reader_depends_on_own_input_only.
+
+(* a response the decision decodes delivers exactly its own original payload and then io.EOF when
+   read through ReadFull operations of any positive sizes, interleaved in any way with any operations
+   on any other responses *)
+Theorem C14_interleaved_decoded_is_original :
+  forall (compress : enc -> bytes -> bytes) (dec : codec),
+  (forall e p, dec e (compress e p) = {| s_data := p; s_end := EOF |}) ->
+  forall bodies ops i st c auto r e p sizes,
+  r_cl r <> 0%Z ->
+  wants_decode c auto (content_encoding (r_ce r)) = Some e ->
+  r_body r = Raw (compress e p) ->
+  nth_error bodies i = Some (r_body (respond st c auto false r)) ->
+  project i ops = map OReadFull sizes ->
+  Forall (fun n => 0 < n) sizes -> length p < length sizes ->
+  let res := results_of i ops (fst (sess_run dec ops (sess_open bodies))) in
+  delivered_bytes res = p /\ last (map snd res) StOk = StEnd EOF.
+Proof. exact interleaved_decoded_is_original. Qed.
+Print Assumptions C14_interleaved_decoded_is_original.
+
+(* the independence is a property of the allocation discipline, not of the way the model is written:
+   the same session with decompressors recycled through a free list that a repeated Close feeds twice
+   (the shape of a sync.Pool recycling bug) splices response 2's bytes into response 1 without an
+   error, in a schedule where the code delivers response 1's own bytes *)
+Theorem C14_recycled_decompressors_refuted :
+  results_of 1 pooled_ops (fst (sess_run_pooled id_codec pooled_ops (psess_open pooled_bodies))) =
+    [(bs "bb", StOk); (bs "cccccc", StEnd EOF)] /\
+  results_of 1 pooled_ops (fst (sess_run_pooled id_codec pooled_ops (psess_open pooled_bodies))) <>
+    fst (crd_run id_codec (project 1 pooled_ops) (COpen (open_body (Lazy Gzip (bs "bbbbbbbb"))))) /\
+  results_of 1 pooled_ops (fst (sess_run id_codec pooled_ops (sess_open pooled_bodies))) =
+    [(bs "bb", StOk); (bs "bbbbbb", StEnd EOF)].
+Proof. exact pooled_refuted. Qed.
+Print Assumptions C14_recycled_decompressors_refuted.
+
 (* the code as pinned violated "otherwise untouched": witness kept checked *)
 Theorem C14_pinned_refuted :
   (let r' := apply_action_pinned (decide_h1_pinned false 5%Z false true (bs "identity")) r_example in
@@ -133,7 +210,7 @@ Example C14_nonvacuous :
   let c := {| q_disable := false; q_ae := []; q_range := []; q_head := false |} in
   let r := {| r_ce := [bs "GZip"]; r_clh := [bs "33"]; r_other := [(bs "Content-Type", bs "text/plain")];
               r_cl := 33%Z; r_unc := false; r_body := Raw (bs "....") |} in
-  wants_decode c false (header_get (r_ce r)) = Some Gzip /\
+  wants_decode c false (content_encoding (r_ce r)) = Some Gzip /\
   wants_decode c true (bs "br") = Some Br /\
   wants_decode c true (bs "Br") = None /\
   wants_decode {| q_disable := false; q_ae := bs "gzip"; q_range := []; q_head := false |} false (bs "gzip") = None /\
